@@ -103,21 +103,22 @@ pub fn c13_sym(tier: &str) -> Value {
         // a block across the 255/0 seam and a second block in the pad column the first one ends in: contiguous_ranges returns the
         // blocks of one pad column non-adjacently (the wrapped block is reported last)
         let mut e = Event::with_wires((254..256).chain(0..2).chain(4..6));
-        e.add_wire_avalanche(255, 20, 40.0); e.add_pad_cluster(31, 100, 20, [400.0, 900.0, 500.0]);
-        e.add_wire_avalanche(0, 35, 25.0); e.add_pad_cluster(0, 400, 35, [300.0, 700.0, 450.0]);
-        e.add_wire_avalanche(5, 50, 30.0); e.add_pad_cluster(0, 200, 50, [350.0, 800.0, 300.0]);
+        // (wire w faces pad column ((w - 8) mod 256) / 8: wire 255 column 30, wires 0..=7 column 31)
+        e.add_wire_avalanche(255, 20, 40.0); e.add_pad_cluster(30, 100, 20, [400.0, 900.0, 500.0]);
+        e.add_wire_avalanche(0, 35, 25.0); e.add_pad_cluster(31, 400, 35, [300.0, 700.0, 450.0]);
+        e.add_wire_avalanche(5, 50, 30.0); e.add_pad_cluster(31, 200, 50, [350.0, 800.0, 300.0]);
         patterns.push(("seam block and a separate block sharing a pad column", e));
     }
     {
         // more pad clusters than wire avalanches in one pad column and time bin, of unequal size, on both sides of z = 0
         let mut e = Event::with_wires(80..88);
         e.add_wire_avalanche(83, 30, 45.0);
-        e.add_pad_cluster(10, 60, 30, [300.0, 700.0, 350.0]);
-        e.add_pad_cluster(10, 500, 30, [500.0, 1200.0, 600.0]);
+        e.add_pad_cluster(9, 60, 30, [300.0, 700.0, 350.0]);
+        e.add_pad_cluster(9, 500, 30, [500.0, 1200.0, 600.0]);
         e.add_wire_avalanche(85, 60, 30.0); e.add_wire_avalanche(81, 60, 35.0);
-        e.add_pad_cluster(10, 150, 60, [600.0, 1300.0, 500.0]);
-        e.add_pad_cluster(10, 300, 60, [250.0, 600.0, 300.0]);
-        e.add_pad_cluster(10, 450, 60, [400.0, 950.0, 420.0]);
+        e.add_pad_cluster(9, 150, 60, [600.0, 1300.0, 500.0]);
+        e.add_pad_cluster(9, 300, 60, [250.0, 600.0, 300.0]);
+        e.add_pad_cluster(9, 450, 60, [400.0, 950.0, 420.0]);
         patterns.push(("more pad clusters than wire avalanches in one column and time bin", e));
     }
     for (name, e) in &patterns {
